@@ -78,7 +78,7 @@ def make_jobs(ctx):
     jobs += pm.jobs(ctx, ["wasm_int.h", "libm_markers.h"], "G")
     if ctx.tier == "thorough":
         for tag, opts in (("Gp", ["-p"]), ("Gm", ["-m"]), ("Gf1", ["-f", "1"])):
-            pm2 = ProbeModule("c01int")
+            pm2 = ProbeModule("c01int" + tag)
             for (op, pt, rt, spec, trap, solver) in int_ops():
                 base = op.replace(".", "").replace("_", "")
                 for p in operator_contexts(base, op, pt, rt, spec, trap, solver=("z3" if solver == "smt" else "sat"),
